@@ -94,6 +94,25 @@ def make_config(shape):
     return config
 
 
+class Impostor(object):
+    """a different class that another configuration's table binds to the same bare name"""
+
+
+def prior_use(shape):
+    """
+    Another configuration in the same interpreter, whose class table binds the same bare
+    name to a different class, has loaded an object of that name before.
+    """
+    if not shape.get("prior"):
+        return
+    other = Config()
+    other.classes.add(Impostor, shape["cls"])
+    try:
+        jsonclass.load({"__jsonclass__": [shape["cls"], []]}, other.classes)
+    except Exception:  # noqa
+        pass
+
+
 def make_obj(shape, L):
     names = beans.field_names(shape["cls"])
     values = [field_value(kind, L, "f{0}".format(i)) for i, kind in enumerate(shape["vals"])]
@@ -136,6 +155,7 @@ def unwrap(pos, loaded):
 
 
 def h_roundtrip(shape, L):
+    prior_use(shape)
     config = make_config(shape)
     obj = make_obj(shape, L)
     wrapped = wrap(shape["pos"], obj, L)
@@ -167,6 +187,7 @@ def h_rpc(shape, L):
     The object travels as parameter and comes back as result of a remote call.
     """
     codec = TokenCodec().install()
+    prior_use(shape)
     config = make_config(shape)
     dispatcher = srv.SimpleJSONRPCDispatcher(config=config)
     received = []
